@@ -28,7 +28,7 @@ ASSUMPTIONS = ['whether the callee name is looked up before or after its argumen
 REAL = ['smartquery.*']
 STUB = ['host probes t / boom (scripted, with a fault plan)']
 REACH_PROBES = ('lazy_and', 'lazy_or', 'if', 'probe_raise_fired', 'slice', 'dict_literal', 'setitem', 'setitemop',
-                'short', 'lambda_body_probe', 'literal_leaf_next_to_lazy', 'call_args', 'del', 'lamcall', 'undefined_callee', 'same_operand_twice', 'lazy_right_changes_left', 'nested_lambda_calls', 'lambda_of_earlier_call')
+                'short', 'lambda_body_probe', 'literal_leaf_next_to_lazy', 'call_args', 'del', 'lamcall', 'undefined_callee', 'same_operand_twice', 'lazy_right_changes_left', 'nested_lambda_calls', 'lambda_of_earlier_call', 'failing_literal_negation')
 
 TRUTHY = {'num': [['num', '1'], ['num', '2.5'], ['neg', ['num', '3']]], 'str': [['str', 'a'], ['str', '0']],
           'bool': [['bool', True]], 'list': [['list', [['num', '1']]], ['list', [['list', []]]]], 'none': [['num', '7']]}
@@ -47,6 +47,10 @@ class Shape:
 
     def lit(self, ty):
         r = self.r
+        if r.random() < 0.03:
+            # a negation that cannot be computed: an error of the EVALUATION of that operand (if it is evaluated at all)
+            self.kinds.add('failing_literal_negation')
+            return ['neg', r.choice([['str', 'x'], ['none'], ['list', []]])]
         if ty == 'num':
             return gen.num_tree(r)
         if ty == 'str':
